@@ -55,6 +55,8 @@ func (m xMsg) bytes() []byte {
 		return pg.Sync()
 	case "query":
 		return pg.Query(m.Query)
+	case "terminate":
+		return pg.Terminate()
 	default:
 		return m.Raw
 	}
@@ -142,6 +144,7 @@ type xExp struct {
 	next   *xState
 	any    bool // reply left open: E with or without Z, or nothing
 	simple *hs.Prog
+	closes bool // the server must close the connection (Terminate)
 }
 
 func rowDescExp(cols wire.Columns, rfmts []int16) expMsg {
@@ -188,6 +191,9 @@ func stmtReply(h *hs.Stmt) (reply []expMsg, failed bool) {
 
 // step returns every admissible outcome of msg in state s.
 func (s *xState) step(m xMsg) []xExp {
+	if m.K == "terminate" {
+		return []xExp{{next: s, closes: true}}
+	}
 	if s.skip {
 		switch m.K {
 		case "sync":
@@ -557,6 +563,14 @@ func judgeHistoryY(c *core.Ctx, env *hs.Env, h []xMsg, cs any, yield func()) (ok
 			run.Trace = append(run.Trace, "exec:"+e.Stmt)
 		}
 		c.Count("messages_stepped", 1)
+		if m.K == "terminate" {
+			if !closed || len(out) != 0 || len(parses)+len(execs) != 0 {
+				viol(i, "terminate", "Terminate did not simply close the connection"+skipTag(states), fmt.Sprintf("closed=%v reply=%q callbacks=%d", closed, replyKinds(out), len(parses)+len(execs)))
+				return false, run
+			}
+			c.Count("terminates", 1)
+			return true, run
+		}
 		if closed {
 			run.Closed = true
 			viol(i, "dropped", "connection dropped on "+m.K+skipTag(states), "the server closed the connection; reply so far: "+replyKinds(out))
